@@ -8,9 +8,14 @@ Driver for the language enumerator (`Model/Enum.lean`), exe `drv_enum`.
   {"op":"greedy","binary":bool,"word":[units],"leaves":[leaf…],"tags":[regexId|null…],
    "oracle":[[regexId,[units],m]…]}
       → {"greedy":bool}       `regexGreedy` with the greedy-length table (absent pair = no match)
+  {"op":"capvalid","grammar":G,"oracle":O,"tree":T,"cap":c,"sel":"braces"|"all"|"none"}
+      → {"valid":bool}        the verified checker on the grammar whose open-ended repetitions of the selected
+                              kinds are capped at c (`RepCap.capGrammar`; `C05_capValid_iff`)
 -/
 import Driver.IRJson
 import Model.Enum
+import Model.RepCap
+import Model.IRFast
 open Lean FV FV.Drv FV.Enum
 
 def instOf (j : Json) : Except String (List (Nat × List Leaf)) := do
@@ -75,6 +80,17 @@ def handle (j : Json) : Except String Json := do
     let tags ← (← (← j.getObjVal? "tags").getArr?).toList.mapM tagOf
     let Rg ← greedyTable (← j.getObjVal? "oracle")
     return Json.mkObj [("greedy", Json.bool (regexGreedy Rg binary word leaves tags 0))]
+  | "capvalid" =>
+    let G ← grammarOf (← j.getObjVal? "grammar")
+    let R ← oracleOf (← j.getObjVal? "oracle")
+    let t ← treeOf (← j.getObjVal? "tree")
+    let c ← (← j.getObjVal? "cap").getNat?
+    let sel ← match (← j.getObjValAs? String "sel") with
+      | "braces" => pure RepCap.selBraces
+      | "all" => pure RepCap.selAll
+      | "none" => pure RepCap.selNone
+      | s => throw s!"unknown sel {s}"
+    return Json.mkObj [("valid", Json.bool (validFast (RepCap.capGrammar sel c G) R t))]
   | _ => throw s!"unknown op {op}"
 
 def main : IO Unit := run handle
